@@ -13,6 +13,10 @@
                                                                      lexLt_2d, lexLt_3d, trap_lookup_perm_invariant
     "equality and static hash are order-independent"                 eq_hash_perm_invariant, eq_iff_same_traps
     "a register from trap IDs places each qubit exactly on its trap" define_register_places, define_register_accepts
+    "… also for a register constructed directly with layout= /
+     trap_ids=: it is accepted iff every qubit is exactly on the
+     trap it claims, and then the look-up returns those IDs"         direct_register_iff, direct_register_places,
+                                                                     direct_lookup_inverse
     "looking those coordinates up returns the same IDs"              lookup_inverse, lookup_inverse_built,
                                                                      lookup_sound, layout_coords_distinct
     "a mappable register places the chosen qubits in declared order" mappable_order, mappable_places
@@ -207,6 +211,66 @@ theorem lookup_sound {L : Layout} {cs : List Coord} {is : List Nat}
         have := lookupLast_some hi
         simp [Layout.trapCoord, List.getD, this, ih hjs]
       · cases h
+
+/-! ### Registers constructed directly with `layout=` / `trap_ids=` -/
+
+/-- **A register may only claim traps it sits on**: `Register(qubits, layout=L, trap_ids=ids)`
+(also `Register3D`, `from_coordinates(…, layout=, trap_ids=)`, deserialisation) is accepted if and
+only if it has qubits, the dimensionalities agree, the trap IDs are distinct, existing, one per
+qubit, and every qubit is *exactly* on the trap it claims (no tolerance: the caller's raw
+coordinate must be the rounded coordinate of the trap). -/
+theorem direct_register_iff (L : Layout) (dim : Nat) (qs : List (QId × RPos)) (ids : List Nat) :
+    (∃ r, mkRegisterDirect L dim qs ids = .ok r) ↔
+      qs ≠ [] ∧ L.dim = dim ∧ ids.Nodup ∧ ids.length = qs.length ∧ (∀ i ∈ ids, i < L.nTraps) ∧
+      qs.map (·.2) = ids.map (fun t => (L.trapCoord t).map (fun (z : Int) => (z : Rat))) := by
+  constructor
+  · rintro ⟨r, h⟩
+    obtain ⟨h1, h2, h3, h4, h5, h6, _⟩ := mkRegisterDirect_ok h
+    exact ⟨h1, h2, h3, h4, h5, allOnTraps_spec L qs ids h4 h6⟩
+  · rintro ⟨h1, h2, h3, h4, h5, h6⟩
+    refine ⟨_, mkRegisterDirect_accepts h1 h2 h3 h4 h5 ?_⟩
+    -- from the list equation back to the pointwise test
+    clear h1 h3 h5
+    induction qs generalizing ids with
+    | nil => cases ids <;> rfl
+    | cons q qs ih =>
+      cases ids with
+      | nil => simp at h4
+      | cons i is =>
+        simp only [List.map_cons, List.cons.injEq] at h6
+        simp only [allOnTraps, onTrap, h6.1, BEq.rfl, Bool.true_and]
+        exact ih is (by simpa using h4) h6.2
+
+/-- … so whatever way a register with layout information came to be, **each qubit is exactly on
+its trap**, the recorded trap IDs are the claimed ones and they are IDs of the layout. -/
+theorem direct_register_places {L : Layout} {dim : Nat} {qs : List (QId × RPos)} {ids : List Nat}
+    {r : Reg} (h : mkRegisterDirect L dim qs ids = .ok r) :
+    r.qubits.map (·.2) = ids.map L.trapCoord ∧ r.qubits.map (·.1) = qs.map (·.1) ∧
+    r.trapIds = ids ∧ r.dim = L.dim ∧ (∀ i ∈ ids, i < L.nTraps) := by
+  obtain ⟨_, h2, _, h4, h5, _, rfl⟩ := mkRegisterDirect_ok h
+  have hle : (ids.map L.trapCoord).length ≤ (qs.map (·.1)).length := by
+    simp only [List.length_map]; omega
+  have hle' : (qs.map (·.1)).length ≤ (ids.map L.trapCoord).length := by
+    simp only [List.length_map]; omega
+  exact ⟨List.map_snd_zip hle, List.map_fst_zip hle', rfl, h2.symm, h5⟩
+
+/-- … and **looking its coordinates up returns the trap IDs it carries**. -/
+theorem direct_lookup_inverse {L : Layout} (hn : L.coords.Nodup) {dim : Nat}
+    {qs : List (QId × RPos)} {ids : List Nat} {r : Reg}
+    (h : mkRegisterDirect L dim qs ids = .ok r) :
+    trapsFromCoords L (r.qubits.map (·.2)) = .ok ids := by
+  obtain ⟨h1, _, _, _, h5⟩ := direct_register_places h
+  rw [h1]
+  exact trapsFromCoords_map L (sortLex_nodup hn) ids h5
+
+example : mkRegisterDirect ⟨2, [[40000000, 0], [0, 3000000]]⟩ 2 [("a", [40000000, 0])] [1]
+    = .ok ⟨2, [("a", [40000000, 0])], [1]⟩ := by decide +kernel
+/-- 3·10⁻⁴ µm off a trap at x = 40 µm is not on the trap … -/
+example : mkRegisterDirect ⟨2, [[40000000, 0], [0, 3000000]]⟩ 2 [("a", [40000300, 0])] [1]
+    = .err .layoutMismatch := by decide +kernel
+/-- … nor is a position that merely rounds to the trap's coordinate. -/
+example : mkRegisterDirect ⟨2, [[40000000, 0], [0, 3000000]]⟩ 2 [("a", [400000000001 / 10000, 0])] [1]
+    = .err .layoutMismatch := by decide +kernel
 
 /-! ### Mappable registers -/
 
